@@ -3,7 +3,8 @@ GEN: seeded pattern ASTs ('/', '//', positional and boolean predicates, all node
 RUN: XPathProcessorImpl::initMatchPattern + XPath::getMatchScore for every node of the document (harness/xp.cpp, mode match).
 TV : Trace_C09.tla computes the match set from the definition (XPathSem!MatchSet) and compares.
 MC : MC_Pattern.tla - the transcription of Xalan's right-to-left matcher (spec/impl/PatternMatcherImpl.tla) agrees with
-     the definition over a bounded family outside the named deviation classes, which are shown real.
+     the definition over a bounded family outside the named deviation classes, which are shown real (none at present: the
+     six classes found so far were repaired in the code and the transcription follows the repaired matcher).
 KNOWN vs VIOLATION: a case the definition rejects is re-examined by Trace_C09impl.tla: KNOWN iff the recorded set is
      exactly what the transcribed algorithm computes and every differing node is in a named class (KD_<key>)."""
 import os, random, json, subprocess
